@@ -7,6 +7,7 @@ import (
 	"sync"
 	"time"
 
+	"github.com/indexsupply/shovel/dig"
 	"github.com/indexsupply/shovel/jrpc2"
 	"github.com/indexsupply/shovel/shovel"
 	"github.com/indexsupply/shovel/shovel/config"
@@ -25,6 +26,7 @@ func init() {
 
 func runC02(e *core.Env) error {
 	r := e.Rand
+	rollbackRemovesAll(e, "c02")
 	for s := 0; s < e.N(4, 12); s++ {
 		managerAhead(e, s)
 	}
@@ -316,4 +318,75 @@ func managerAhead(e *core.Env, s int) {
 		return "ok"
 	}()
 	e.Add(core.Case{Impl: verdict, Spec: "ok", Key: fmt.Sprintf("c02-manager-source-behind %d", s), Nontrivial: true, Tags: []string{"manager-loop-source-behind-position", "every-committed-state-watched"}})
+}
+
+// rollbackRemovesAll: the row half of a reorg rollback (Integration.Delete, called by Task.Delete inside the
+// unwinding transaction) on a table holding rows of the pair FAR above the rollback point (a large batch size,
+// a long catch-up batch that ended at the head), rows of the pair below it, and rows of other pairs: every row of
+// the pair at or above the point goes, nothing else does.
+func rollbackRemovesAll(e *core.Env, key string) {
+	ctx := e2eCtx("src1", 7)
+	verdict := func() string {
+		pg := fakepg.New()
+		url, _ := pg.Start()
+		defer pg.Close()
+		pool, err := pgxpool.New(ctx, url)
+		if err != nil {
+			return "setup: " + err.Error()
+		}
+		defer func() { go pool.Close() }()
+		cig := transferIG("igdel", "tdel", []string{"block_time"}, nil)
+		root := config.Root{Integrations: []config.Integration{cig}}
+		if err := config.ValidateFix(&root); err != nil {
+			return "setup: " + err.Error()
+		}
+		conn, err := pool.Acquire(ctx)
+		if err != nil {
+			return "setup: " + err.Error()
+		}
+		err = config.Migrate(ctx, conn, root)
+		conn.Release()
+		if err != nil {
+			return "setup: " + err.Error()
+		}
+		ci := root.Integrations[0]
+		ig, err := dig.New(ci.Name, ci.Event, ci.Block, ci.Table, ci.Notification, ci.FilterAGG)
+		if err != nil {
+			return "setup: " + err.Error()
+		}
+		const n = 5000
+		type rw struct {
+			src, ig string
+			blk     int64
+		}
+		var rows []rw
+		for _, b := range []int64{1, n - 1, n, n + 1, n + 999, n + 1000, n + 1001, n + 2000, n + 100000} {
+			rows = append(rows, rw{"src1", "igdel", b}, rw{"src2", "igdel", b}, rw{"src1", "other", b})
+		}
+		for i, r := range rows {
+			if err := pg.InsertRow("tdel", map[string]fakepg.Value{"src_name": r.src, "ig_name": r.ig, "block_num": fakepg.Num(fmt.Sprint(r.blk)), "tx_idx": fakepg.Num("0"), "log_idx": fakepg.Num(fmt.Sprint(i)), "abi_idx": fakepg.Num("0")}); err != nil {
+				return "setup: " + err.Error()
+			}
+		}
+		if err := ig.Delete(ctx, pool, n); err != nil {
+			return "Delete failed: " + err.Error()
+		}
+		left := map[rw]bool{}
+		for _, r := range pg.Rows("tdel") {
+			var b int64
+			fmt.Sscan(fmt.Sprint(r["block_num"]), &b)
+			left[rw{fmt.Sprint(r["src_name"]), fmt.Sprint(r["ig_name"]), b}] = true
+		}
+		for _, r := range rows {
+			mine := r.src == "src1" && r.ig == "igdel"
+			switch {
+			case mine && r.blk >= n && left[r]:
+				return fmt.Sprintf("rolled back to %d: a row of the pair at block %d is still there", n-1, r.blk)
+			case !(mine && r.blk >= n) && !left[r]:
+				return fmt.Sprintf("rolled back (%s, %s) to %d: the row of (%s, %s) at block %d is gone", "src1", "igdel", n-1, r.src, r.ig, r.blk)
+			}
+		}
+		return "ok"
+	}()
+	e.Add(core.Case{Impl: verdict, Spec: "ok", Key: key + "-rollback-removes-all", Nontrivial: true, Tags: []string{"rollback-removes-every-row-above"}})
 }
